@@ -32,9 +32,12 @@ var c04Platforms = [][]string{nil, {"linux"}, {"windows"}, {"Linux", "macos"}, {
 var c04Hosts = []string{"linux", "darwin", "windows", "freebsd"}
 
 type c04Env struct {
-	db  *database.Database
-	cdb *database.CachedDatabase
-	mdb *database.MonitoredDatabase
+	db    *database.Database
+	cdb   *database.CachedDatabase
+	mdb   *database.MonitoredDatabase
+	chain *database.CachedDatabase
+	// chains: one never-invalidated cache per host OS (a process has one host; the host is not part of the key)
+	chains map[string]*database.CachedDatabase
 }
 
 func c04Eval(e *c04Env, cs sCase) (*lib.Violation, string) {
@@ -51,6 +54,16 @@ func c04Eval(e *c04Env, cs sCase) (*lib.Violation, string) {
 			e.cdb.InvalidateCache()
 			e.cdb.SearchWithOptionsAndCache(q, o)
 			rs = e.cdb.SearchWithOptionsAndCache(q, o)
+		case "cached-chain":
+			// no invalidation: earlier requests with other switch settings have filled the cache
+			ch := e.chain
+			if e.chains != nil {
+				if e.chains[cs.Host] == nil {
+					e.chains[cs.Host] = database.NewCachedDatabase(e.db)
+				}
+				ch = e.chains[cs.Host]
+			}
+			rs = ch.SearchWithOptionsAndCache(q, o)
 		case "monitored":
 			e.mdb.InvalidateCache()
 			e.mdb.SearchWithOptionsAndMonitoring(q, o)
@@ -131,7 +144,7 @@ func c04Run(c *lib.Ctx) {
 			return
 		}
 		db := spec.build(c)
-		env := &c04Env{db: db, cdb: database.NewCachedDatabase(db), mdb: database.NewMonitoredDatabase(db)}
+		env := &c04Env{db: db, cdb: database.NewCachedDatabase(db), mdb: database.NewMonitoredDatabase(db), chains: map[string]*database.CachedDatabase{}}
 		// would an ineligible entry match textually? (non-vacuity, per db)
 		for _, q := range c04Queries {
 			qq := strconv.Quote(q)
@@ -143,7 +156,7 @@ func c04Run(c *lib.Ctx) {
 						if o.UseFuzzy && pi%2 == 1 {
 							o.FuzzyThreshold = -30
 						}
-						entries := []string{"SearchUniversal"}
+						entries := []string{"SearchUniversal", "cached-chain"}
 						if bits&24 == 0 || idx%5 == 0 {
 							entries = append(entries, "cached")
 						}
@@ -155,7 +168,7 @@ func c04Run(c *lib.Ctx) {
 							v, obs := c04Eval(env, cs)
 							c.Rep.Evaluations++
 							idx++
-							if selfCheck < 64 {
+							if selfCheck < 64 && en != "cached-chain" {
 								selfCheck++
 								if _, o2 := c04Eval(env, cs); o2 != obs {
 									c.Fail("harness nondeterminism on %+v", cs)
@@ -183,6 +196,31 @@ func c04Run(c *lib.Ctx) {
 							if idx%60000 == 11 {
 								c.Sample(map[string]any{"case": cs, "observed": obs})
 							}
+						}
+					}
+				}
+			}
+		}
+	}
+	// the chain again with the switch combinations in the opposite order (so that every
+	// combination also follows, not only precedes, the others) on the 18-entry database
+	if c.Shard == 1 {
+		spec := dbSpec{Pool: c04Pool}
+		db := spec.build(c)
+		env := &c04Env{db: db, chain: database.NewCachedDatabase(db)}
+		for _, host := range c04Hosts {
+			env.chain.InvalidateCache()
+			for _, q := range c04Queries {
+				for bits := 31; bits >= 0; bits-- {
+					for pi := len(c04Platforms) - 1; pi >= 0; pi-- {
+						o := Opts{Limit: len(db.Commands) + 3, AllPlatforms: bits&1 != 0, NoCrossPlatform: bits&2 != 0, PipelineOnly: bits&4 != 0,
+							UseNLP: bits&8 != 0, UseFuzzy: bits&16 != 0, Platforms: c04Platforms[pi]}
+						cs := sCase{DB: spec, Query: strconv.Quote(q), Opts: o, Entry: "cached-chain", Host: host}
+						v, _ := c04Eval(env, cs)
+						c.Rep.Evaluations++
+						c.Count("cached_chain_descending", 1)
+						if v != nil {
+							c.Violate(*v)
 						}
 					}
 				}
@@ -237,7 +275,18 @@ func c04Replay(c *lib.Ctx, raw json.RawMessage) []lib.Violation {
 		return nil
 	}
 	db := cs.DB.build(c)
-	env := &c04Env{db: db, cdb: database.NewCachedDatabase(db), mdb: database.NewMonitoredDatabase(db)}
+	env := &c04Env{db: db, cdb: database.NewCachedDatabase(db), mdb: database.NewMonitoredDatabase(db), chain: database.NewCachedDatabase(db)}
+	if cs.Entry == "cached-chain" {
+		// replay the chain: the same query with every switch combination before this one
+		for bits := 0; bits < 32; bits++ {
+			for _, plats := range c04Platforms {
+				o := cs.Opts
+				o.AllPlatforms, o.NoCrossPlatform, o.PipelineOnly, o.UseNLP, o.UseFuzzy, o.Platforms = bits&1 != 0, bits&2 != 0, bits&4 != 0, bits&8 != 0, bits&16 != 0, plats
+				vhost.Set(cs.Host)
+				env.chain.SearchWithOptionsAndCache(cs.query(), o)
+			}
+		}
+	}
 	if v, _ := c04Eval(env, cs); v != nil {
 		return []lib.Violation{*v}
 	}
@@ -247,7 +296,7 @@ func c04Replay(c *lib.Ctx, raw json.RawMessage) []lib.Violation {
 func init() {
 	lib.Register(&lib.Check{
 		ID: "C04", Level: "model_checking",
-		Rule: "full product of: databases = all subsets of <=2 of 18 platform-shaped / pipeline pool entries (none, linux, windows, macos, darwin, PowerShell, unix, bsd, cross-platform in two spellings, two-platform; on whitelisted tools and on a non-tool) + the 18-entry database; 20 queries (lexical, NLP-expanded, typo-fallback with no terms and with all postings filtered); AllPlatforms x NoCrossPlatform x PipelineOnly x UseNLP x UseFuzzy x 5 requested-platform lists; 4 host OS values (vhost); entry points SearchUniversal always, cached (second call) on lexical cases and every 5th other, monitored and SearchWithPipelineOptions on lexical/no-platform cases. Oracle: every returned entry is eligible by the reference predicate, and is a pipeline command under PipelineOnly. Non-trivial = calls with a non-empty answer",
+		Rule:      "full product of: databases = all subsets of <=2 of 18 platform-shaped / pipeline pool entries (none, linux, windows, macos, darwin, PowerShell, unix, bsd, cross-platform in two spellings, two-platform; on whitelisted tools and on a non-tool) + the 18-entry database; 20 queries (lexical, NLP-expanded, typo-fallback with no terms and with all postings filtered); AllPlatforms x NoCrossPlatform x PipelineOnly x UseNLP x UseFuzzy x 5 requested-platform lists; 4 host OS values (vhost); entry points SearchUniversal and a chained cached wrapper (one cache per database and host, never invalidated, so answers cached under other switch settings are available to be served wrongly; ascending and, on the 18-entry database, descending order of combinations) always, cached (second call) on lexical cases and every 5th other, monitored and SearchWithPipelineOptions on lexical/no-platform cases. Oracle: every returned entry is eligible by the reference predicate, and is a pipeline command under PipelineOnly. Non-trivial = calls with a non-empty answer",
 		Assume:    []string{"alias pool limited to darwin, powershell, cmd, unix, bash", "the platform filter is demanded of SearchUniversal-based entry points; of the legacy SearchWithPipelineOptions only the pipeline gate is demanded", "map order pinned"},
 		QuickSecs: 150, ThorSecs: 900,
 		Run: c04Run, Replay: c04Replay,
